@@ -27,6 +27,22 @@ Theorem C01_conservation : forall (os : list out) (p : params) (b : built),
 Proof. exact build_send_conserves. Qed.
 Print Assumptions C01_conservation.
 
+(** Late lock: the selection is redone when the send is finalized, against the fee fixed at
+    initiation (the fee in the kernel the counterparty has signed for). The wallet agrees only
+    if the new selection needs exactly that fee, so the equation holds with the agreed fee;
+    a selection needing any other fee — lower as well as higher — is refused. *)
+Theorem C01_late_lock_uses_the_agreed_fee : forall (os : list out) (p : params) (fixed : N) (b : built),
+  build_send_fixed os p fixed = Ok b ->
+  build_send os p = Ok b /\ b_fee b = fixed
+  /\ sumN (values (b_inputs b)) = b_amount b + fixed + sumN (b_changes b).
+Proof. exact build_send_fixed_agreed. Qed.
+Print Assumptions C01_late_lock_uses_the_agreed_fee.
+
+Theorem C01_late_lock_refuses_another_fee : forall (os : list out) (p : params) (fixed : N) (b : built),
+  build_send os p = Ok b -> b_fee b <> fixed -> build_send_fixed os p fixed = Err EFee.
+Proof. exact build_send_fixed_refuses. Qed.
+Print Assumptions C01_late_lock_refuses_another_fee.
+
 (** It never crashes: with the API's u32 bounds on the number of change outputs (and fewer
     than 2^32 outputs in the wallet) the only remaining unchecked arithmetic, the fee
     product, cannot overflow; everything else returns an error value. *)
